@@ -2,6 +2,7 @@ package checks
 
 import (
 	"fmt"
+	"github.com/nuetzliches/hookaido/verifharness/leasecheck"
 	"time"
 
 	"github.com/nuetzliches/hookaido/internal/pullapi"
@@ -267,6 +268,9 @@ func C05(c *vlib.Ctx) {
 	c.Assume("a due message that a retention prune may remove inside the same dequeue call counts as 'may', not 'must'")
 	c05Store(c)
 	c05Dense(c)
+	for i, be := range []string{"memory", "sqlite"} {
+		leasecheck.TimingProbe(c, vlib.Derive(c.Seed, "C05timing", i), be, "C05/timing/"+be)
+	}
 	c05LongHistory(c)
 	c05Pull(c)
 	c05Crash(c)
